@@ -40,7 +40,11 @@ RULE = ("binary operations + - * / and or xor == != < <= > >= of a sparse tensor
         "kind) per pair in rotation so that every operation meets every 13th/26th pair; quick enumerates (i) "
         "for <= 3 cells and (ii) for <= 2 cells. Sampled: random shapes of order 1..4 with up to 36 cells, "
         "operands empty / single / some / full, all operations and kinds, scalars {-2..2} as int and float; "
-        "unary - + not ones elemfun, c*S, c/S, S*ktensor, extract, mask, from_aggregator with repeated "
+        "a family `value_dtypes`: every operation x rhs kind with stored values of dtype int64 / int32 / int16 / int8 / "
+        "bool / float32 (sparse and dense right-hand sides of the same, of int64 and of float64 dtype; scalars 4, 0, -2 "
+        "as Python int and float, np.int64 for `*`), operands (6,7,3,-5) over divisors (4,-2,8) so that quotients are "
+        "non-integral and stored entries sit over implicit zeros of the divisor, reference = NumPy on the expanded "
+        "arrays of the same dtypes, `/` must return floating values; unary - + not ones elemfun, c*S, c/S, S*ktensor, extract, mask, from_aggregator with repeated "
         "subscripts and cancelling values; shape mismatches. Non-trivial = accepted and at least one operand "
         "with a stored entry; distinct = distinct case hash")
 ASSUMPTIONS = [
@@ -139,25 +143,59 @@ def rhs_req(kind, shape, b):
     return {"kind": "dense", "v": {"shape": shape, "data": jval(d.flatten(order="F"))}}
 
 
+DTYPES = {"float64": np.float64, "float32": np.float32, "int64": np.int64, "int32": np.int32, "int16": np.int16,
+          "int8": np.int8, "bool": np.bool_}
+
+
+def mk_sp_dt(shape, ent, dt):
+    """sptensor whose stored values have dtype `dt` (float64 goes through the shared builder)."""
+    if dt == "float64":
+        return gen.mk_sptensor(ttb, shape, ent["subs"], ent["vals"])
+    if not ent["subs"]:
+        return ttb.sptensor(shape=tuple(shape))
+    return ttb.sptensor(np.array(ent["subs"], dtype=int), np.array(ent["vals"], dtype=DTYPES[dt]).reshape(-1, 1), tuple(shape))
+
+
+def expand_dt(shape, ent, dt):
+    a = np.zeros(tuple(shape), dtype=DTYPES[dt])
+    for sub, v in zip(ent["subs"], ent["vals"]):
+        a[tuple(sub)] = v
+    return a
+
+
 def eval_binops(items):
-    """items: list of explicit binop dicts {shape, a:{subs,vals}, op, kind, b}.  Returns per item
-    (status, what, impl, model, spec)."""
+    """items: list of explicit binop dicts {shape, a:{subs,vals}, op, kind, b[, dt, dtb, npscalar]}.  Returns per
+    item (status, what, impl, model, spec).  `dt` / `dtb`: dtype of the stored values of the sparse operand / of
+    the right-hand side (sparse values or dense data); the dense reference is computed on arrays of those dtypes."""
     impls, reqs, specs = [], [], []
     for x in items:
         shape = x["shape"]
-        A = gen.mk_sptensor(ttb, shape, x["a"]["subs"], x["a"]["vals"])
-        rhs = mk_rhs(x["kind"], shape, x["b"])
-        Ad = expand_entries(shape, x["a"]["subs"], x["a"]["vals"])
-        Bd = x["b"] if x["kind"] == "scalar" else expand_entries(shape, x["b"]["subs"], x["b"]["vals"])
+        dt, dtb = x.get("dt", "float64"), x.get("dtb", "float64")
+        A = mk_sp_dt(shape, x["a"], dt)
+        if x["kind"] == "scalar":
+            rhs = np.int64(x["b"]) if x.get("npscalar") else x["b"]
+        elif x["kind"] == "sparse":
+            rhs = mk_sp_dt(shape, x["b"], dtb)
+        else:
+            rhs = ttb.tensor(expand_dt(shape, x["b"], dtb).copy(order="F"), copy=False)
+        Ad = expand_dt(shape, x["a"], dt)
+        Bd = rhs if x["kind"] == "scalar" else expand_dt(shape, x["b"], dtb)
         with np.errstate(all="ignore"):
-            specs.append(SPEC[x["op"]](Ad, Bd))
+            specs.append(np.asarray(SPEC[x["op"]](Ad, Bd), dtype=float))
         f = IMPL[x["op"]]
         impls.append(call(lambda f=f, A=A, rhs=rhs: f(A, rhs)))
-        reqs.append({"op": "sp_binop", "name": x["op"], "A": {"shape": shape, **x["a"]}, "rhs": rhs_req(x["kind"], shape, x["b"])})
+        num = lambda e: {"subs": e["subs"], "vals": jval(e["vals"])}  # noqa: E731
+        reqs.append({"op": "sp_binop", "name": x["op"], "A": {"shape": shape, **num(x["a"])},
+                     "rhs": rhs_req(x["kind"], shape, x["b"] if x["kind"] == "scalar" else num(x["b"]))})
     models = drive(reqs)
     out = []
     for x, impl, m, want in zip(items, impls, models, specs):
-        out.append(judge(x["shape"], impl, m, want, f"{x['op']}/{x['kind']}"))
+        r = judge(x["shape"], impl, m, want, f"{x['op']}/{x['kind']}" + (f"[{x.get('dt')},{x.get('dtb')}]" if "dt" in x else ""))
+        if r[0] == "ok" and x["op"] == "div" and "ok" in impl and isinstance(impl["ok"], ttb.sptensor) \
+                and np.asarray(impl["ok"].vals).size and np.asarray(impl["ok"].vals).dtype.kind != "f":
+            r = ("violation", f"div/{x['kind']}[{x.get('dt')}]: true division returned values of dtype "
+                 f"{np.asarray(impl['ok'].vals).dtype}", canon(impl["ok"]), m, jval(want))
+        out.append(r)
     return out
 
 
@@ -412,6 +450,70 @@ class Sampled(Family):
                 yield {**case, "x": y}
 
 
+
+class Dtypes(Family):
+    """every operation x rhs kind with stored values that are NOT float64 (int64/32/16/8, bool, float32),
+    integer-typed dense operands and Python-int / np.integer scalars; quotients are non-integral and stored
+    entries sit over implicit zeros of the divisor.  Reference: NumPy on the expanded arrays of the same dtypes
+    (true division of integers is float)."""
+    name = "value_dtypes"
+    theorems = Enumerated.theorems
+
+    SHAPES = [[2, 3], [4], [2, 2, 2]]
+
+    def gen(self, rng, tier):
+        out = []
+        dts = ["int64", "int32", "int8", "bool", "float32"] + (["int16"] if tier == "thorough" else [])
+        for s in self.SHAPES:
+            cells = gen.all_subs(s)
+            reps = 1 if tier == "quick" else 4
+            for _ in range(reps):
+                ca = rng.sample(cells, min(3, len(cells)))
+                # B shares one cell with A, misses the others (implicit zeros under stored entries) and has its own
+                cb = [ca[0]] + [c for c in cells if c not in ca][:2]
+                rng.shuffle(cb)
+                for dt in dts:
+                    av = [6, 7, 3, -5][:len(ca)] if dt != "bool" else [True] * len(ca)
+                    bv = [4, -2, 8][:len(cb)] if dt != "bool" else [True] * len(cb)
+                    if dt == "int8" or dt == "float32":
+                        pass
+                    a = {"subs": ca, "vals": av}
+                    b = {"subs": cb, "vals": bv}
+                    for op in OPS:
+                        if dt == "bool" and op in ("add", "sub"):
+                            continue   # NumPy's bool + / - are logical operations or refused: not the arithmetic of the property
+                        for dtb in ({dt, "int64", "float64"} if dt != "bool" else {"bool"}):
+                            bb = b if dtb != "bool" or dt == "bool" else b
+                            out.append({"x": {"shape": s, "a": a, "op": op, "kind": "sparse", "b": bb, "dt": dt, "dtb": dtb}})
+                            out.append({"x": {"shape": s, "a": a, "op": op, "kind": "dense", "b": bb, "dt": dt, "dtb": dtb}})
+                        for sc in (4, 0, -2, 4.0, 0.0):
+                            out.append({"x": {"shape": s, "a": a, "op": op, "kind": "scalar", "b": sc, "dt": dt}})
+                        if op == "mul":
+                            out.append({"x": {"shape": s, "a": a, "op": op, "kind": "scalar", "b": 4, "dt": dt, "npscalar": True}})
+        return out
+
+    def evaluate(self, cases):
+        rs = eval_binops([c["x"] for c in cases])
+        out = []
+        for c, r in zip(cases, rs):
+            x = c["x"]
+            tags = [x["op"], x["kind"], "A:" + x["dt"], "B:" + str(x.get("dtb", type(x["b"]).__name__ if x["kind"] == "scalar" else "")),
+                    "npscalar" if x.get("npscalar") else ""]
+            tags = [t for t in tags if t]
+            out.append(Verdict("ok", "", None, None, None, tags, True) if r[0] == "ok" else Verdict(r[0], r[1] + f"  [{x}]", r[2], r[3], r[4], tags))
+        return out
+
+    def shrink(self, case):
+        x = case["x"]
+        for side in ("a", "b"):
+            ent = x[side]
+            if not isinstance(ent, dict):
+                continue
+            for k in range(len(ent["subs"])):
+                y = dict(x)
+                y[side] = {"subs": ent["subs"][:k] + ent["subs"][k + 1:], "vals": ent["vals"][:k] + ent["vals"][k + 1:]}
+                yield {"x": y}
+
 ELEMFUNS = {
     "neg": (lambda v: -v, lambda a: np.where(a != 0, -a, 0.0)),
     "id": (lambda v: v * 1, lambda a: a),
@@ -650,4 +752,4 @@ class Mismatch(Family):
 
 
 def families():
-    return [Enumerated(), Sampled(), Unary(), Lookups(), Mismatch()]
+    return [Dtypes(), Enumerated(), Sampled(), Unary(), Lookups(), Mismatch()]
